@@ -385,6 +385,13 @@ class Machine:
         return v
 
     def hset(self, alt, obj, v):
+        if obj not in alt.ov:
+            # a write that leaves the object as it is (e.g. a receive from a closed channel) is recorded as a read only:
+            # it still conflicts with concurrent writers, but lets the driver recognise a spinning macro-step
+            cur = self.heap.get(obj, _MISSING)
+            if cur is not _MISSING and same(cur, v):
+                alt.rd.add(obj)
+                return
         alt.ov[obj] = v
 
     def init_global(self, obj):
